@@ -38,7 +38,7 @@ fn w<T: Wire>(name: &'static str, props: &'static [&'static str], weight: u32, b
         name,
         props,
         weight,
-        hooks: Hooks { model: Some(T::model), foreign: Some(T::foreign), zst_elems: false, budget, fixed_size: true },
+        hooks: Hooks { model: Some(T::model), foreign: Some(T::foreign), zst_elems: false, budget, fixed_size: true, bulk: false },
         gen: gen_plan::<T>,
         exec: execute::<T>,
         show: show_values::<T>,
@@ -56,7 +56,7 @@ fn wz<T: Sem>(
         name,
         props,
         weight,
-        hooks: Hooks { model: Some(model), foreign: Some(foreign), zst_elems: false, budget: 1, fixed_size: true },
+        hooks: Hooks { model: Some(model), foreign: Some(foreign), zst_elems: false, budget: 1, fixed_size: true, bulk: false },
         gen: gen_plan::<T>,
         exec: execute::<T>,
         show: show_values::<T>,
@@ -67,7 +67,7 @@ fn e<T: Sem>(name: &'static str, props: &'static [&'static str], weight: u32, bu
         name,
         props,
         weight,
-        hooks: Hooks { model: None, foreign: None, zst_elems: false, budget, fixed_size: false },
+        hooks: Hooks { model: None, foreign: None, zst_elems: false, budget, fixed_size: false, bulk: false },
         gen: gen_plan::<T>,
         exec: execute::<T>,
         show: show_values::<T>,
